@@ -11,7 +11,7 @@ CLAUSE_PROPS = {
     "factor structure": {"C09"}, "reconstruction bound": {"C02", "C01"}, "multiplier bound": {"C02"},
     "residual bound": {"C01"}, "B unchanged on singular": {"C06"}, "A scaling relation": {"C11", "C07"},
     "B scaling relation": {"C11", "C07"}, "query info>n": {"C14"}, "query estimate>0": {"C14"},
-    "query X untouched": {"C14"}, "query retains memory": {"C17"}, "FACTORED modified A": {"C08"},
+    "query X untouched": {"C14"}, "query retains memory": {"C17"}, "query clobbers existing factors / permutations": {"C14", "C08", "C18", "C17"}, "FACTORED modified A": {"C08"},
     "FACTORED modified perms": {"C08"}, "FACTORED modified L/U": {"C08"}, "FACTORED retains memory": {"C17"},
     "DOFACT equed": {"C11"}, "refact retains memory": {"C17"}, "factors inside workspace": {"C14"},
     "X untouched on singular": {"C06"}, "info=n+1 iff rcond<eps": {"C12"},
